@@ -401,4 +401,151 @@ theorem C04_unquoted_word_sqlite (w : List Nat) (hw : PlainWord w) (hr : reserve
         ∃ sets, kwSets r.re = some sets ∧ kwMatch sets w = true :=
   C04_unquoted_word _ _ _ classOK_sqlite kwReserved_sqlite w hw hr
 
+/-! ### numbers: a string of ASCII digits is ONE `INTEGER` token -/
+
+def digitSet : CSet := [(48, 57)]
+
+def splitAt (name : String) : List Rule → Option (List Rule × Rule × List Rule)
+  | [] => none
+  | r :: rs => if r.name == name then some ([], r, rs) else (splitAt name rs).map fun (a, x, b) => (r :: a, x, b)
+
+theorem splitAt_spec {name : String} : ∀ {rules pre x post}, splitAt name rules = some (pre, x, post) →
+    rules = pre ++ x :: post ∧ x.name = name := by
+  intro rules
+  induction rules with
+  | nil => intro _ _ _ h; simp [splitAt] at h
+  | cons r rs ih =>
+    intro pre x post h
+    unfold splitAt at h
+    by_cases hn : (r.name == name) = true
+    · simp only [hn, if_true, Option.some.injEq, Prod.mk.injEq] at h
+      obtain ⟨h1, h2, h3⟩ := h
+      subst h1; subst h2; subst h3
+      exact ⟨rfl, by simpa using hn⟩
+    · simp only [hn, Bool.false_eq_true, if_false, Option.map_eq_some_iff] at h
+      obtain ⟨⟨a, y, b⟩, hs, he⟩ := h
+      simp only [Prod.mk.injEq] at he
+      obtain ⟨h1, h2, h3⟩ := he
+      subst h1; subst h2; subst h3
+      obtain ⟨e1, e2⟩ := ih hs
+      exact ⟨by rw [e1]; rfl, e2⟩
+
+/-- why a rule in front of `INTEGER` cannot match at the start of an all-digit text -/
+def ruleOKnum (r : Re) : Bool :=
+  needsOut digitSet r ||
+  (nonNull r && disjointR (first r) digitSet) ||
+  (match r with
+   | .alt a b => (match idShape r with | some (_, bset) => noneMemR bset digitSet | none => false) &&
+                 nonNull b && disjointR (first b) digitSet
+   | _ => false)
+
+def intShape : Re → Option CSet
+  | .seq (.set a) (.star true (.set b)) => if a == b then some a else none
+  | _ => none
+
+def classOKnum (c : Cfg) : Bool :=
+  match splitAt "INTEGER" c.rules with
+  | none => false
+  | some (pre, ir, _) =>
+    pre.all (fun r => ruleOKnum r.re) && !ir.ignored &&
+    (match intShape ir.re with | some d => allMemR d digitSet | none => false) &&
+    disjointR c.ignore digitSet
+
+theorem intShape_spec {r : Re} {D : CSet} (h : intShape r = some D) : r = .seq (.set D) (.star true (.set D)) := by
+  unfold intShape at h
+  split at h
+  · rename_i a b
+    by_cases hab : (a == b) = true
+    · simp only [hab, if_true, Option.some.injEq] at h
+      simp only [beq_iff_eq] at hab
+      subst hab; subst h; rfl
+    · simp [hab] at h
+  · cases h
+
+theorem idShape_alt {r : Re} {a b : CSet} (h : idShape r = some (a, b)) {x y : Re} (hr : r = .alt x y) : x = idCore a b := by
+  obtain ⟨z, hz⟩ := idShape_spec h
+  rw [hr] at hz
+  cases hz
+  rfl
+
+/-- **every non-empty string of ASCII digits is one `INTEGER` token** — every rule list with `classOKnum`, every length -/
+theorem C04_digits_are_INTEGER (c : Cfg) (hc : classOKnum c = true) (d : List Nat) (hne : d ≠ [])
+    (hd : ∀ x ∈ d, inSet digitSet x) : lex c d = .ok [.tok "INTEGER" false d] := by
+  unfold classOKnum at hc
+  cases hs : splitAt "INTEGER" c.rules with
+  | none => rw [hs] at hc; cases hc
+  | some x =>
+    obtain ⟨pre, ir, post⟩ := x
+    rw [hs] at hc
+    simp only [Bool.and_eq_true, List.all_eq_true, Bool.not_eq_true'] at hc
+    obtain ⟨⟨⟨hpre, hign⟩, hint⟩, hignore⟩ := hc
+    obtain ⟨erules, ename⟩ := splitAt_spec hs
+    cases d with
+    | nil => exact absurd rfl hne
+    | cons c0 t0 =>
+      have hc0d : inSet digitSet c0 := hd c0 List.mem_cons_self
+      have hnone : ∀ r ∈ pre, matchAt c.word r.re ⟨[], c0 :: t0⟩ = none := by
+        intro r hr
+        have hok := hpre r hr
+        unfold ruleOKnum at hok
+        simp only [Bool.or_eq_true] at hok
+        rcases hok with (ho | hf) | hid
+        · exact matchAt_none_of_needsOut ho (fun x hx => hd x hx)
+        · simp only [Bool.and_eq_true] at hf
+          exact matchAt_none_of_first hf.1 hf.2 (p := ⟨[], c0 :: t0⟩) rfl hc0d
+        · -- the `ID` rule: its core needs a character of `B`, its other branch starts with a back-quote
+          cases hre : r.re with
+          | alt a b =>
+            rw [hre] at hid
+            simp only [Bool.and_eq_true] at hid
+            obtain ⟨⟨hsh, hnb⟩, hfb⟩ := hid
+            cases hsp : idShape (Re.alt a b) with
+            | none => rw [hsp] at hsh; cases hsh
+            | some ab =>
+              obtain ⟨A, B⟩ := ab
+              rw [hsp] at hsh
+              have ea := idShape_alt hsp rfl
+              unfold matchAt
+              simp only [m]
+              have h1 : m c.word a ⟨[], c0 :: t0⟩ some = none := by
+                rw [ea]
+                exact idCore_none c.word A B ⟨[], c0 :: t0⟩ (fun x hx => noneMemR_sound hsh (hd x hx))
+              have h2 : m c.word b ⟨[], c0 :: t0⟩ some = none :=
+                matchAt_none_of_first hnb hfb (p := ⟨[], c0 :: t0⟩) rfl hc0d
+              rw [h1, h2]; rfl
+          | _ => rw [hre] at hid; simp at hid
+      cases hsh : intShape ir.re with
+      | none => rw [hsh] at hint; cases hint
+      | some D =>
+        rw [hsh] at hint
+        have ere : ir.re = .seq (.set D) (.star true (.set D)) := intShape_spec hsh
+        have hD : ∀ x ∈ c0 :: t0, D.mem x = true := fun x hx => allMemR_sound hint (hd x hx)
+        have him : matchAt c.word ir.re ⟨[], c0 :: t0⟩ = some ⟨(c0 :: t0).reverse, []⟩ := by
+          rw [ere, plus_set_all c.word D [] c0 t0 hD]
+          simp [Pos.fin]
+        have hfm : firstMatch c.word c.rules ⟨[], c0 :: t0⟩ = some (ir, ⟨(c0 :: t0).reverse, []⟩) := by
+          rw [erules, firstMatch_skip pre _ hnone]
+          simp [firstMatch, him]
+        have hig : c.ignore.mem c0 = false := by
+          cases h : c.ignore.mem c0 with
+          | false => rfl
+          | true => exact (disjointR_sound hignore (mem_sound h) hc0d).elim
+        unfold lex
+        simp only [List.length_cons, lexLoop, hig, Bool.false_eq_true, if_false, hfm]
+        simp only [List.length_nil, Nat.zero_lt_succ, if_true]
+        cases hn : t0.length + 1 with
+        | zero => omega
+        | succ n => simp [lexLoop, ename, hign, between]
+
+theorem classOKnum_sqlite : classOKnum LexRe_sqlite.cfg = true := by decide +kernel
+theorem classOKnum_mysql : classOKnum LexRe_mysql.cfg = true := by decide +kernel
+theorem classOKnum_mindsdb : classOKnum LexRe_mindsdb.cfg = true := by decide +kernel
+
+theorem C04_digits_are_INTEGER_sqlite (d : List Nat) (hne : d ≠ []) (hd : ∀ x ∈ d, inSet digitSet x) :
+    lex LexRe_sqlite.cfg d = .ok [.tok "INTEGER" false d] := C04_digits_are_INTEGER _ classOKnum_sqlite d hne hd
+theorem C04_digits_are_INTEGER_mysql (d : List Nat) (hne : d ≠ []) (hd : ∀ x ∈ d, inSet digitSet x) :
+    lex LexRe_mysql.cfg d = .ok [.tok "INTEGER" false d] := C04_digits_are_INTEGER _ classOKnum_mysql d hne hd
+theorem C04_digits_are_INTEGER_mindsdb (d : List Nat) (hne : d ≠ []) (hd : ∀ x ∈ d, inSet digitSet x) :
+    lex LexRe_mindsdb.cfg d = .ok [.tok "INTEGER" false d] := C04_digits_are_INTEGER _ classOKnum_mindsdb d hne hd
+
 end MindsVerif.Props.C04Lex
